@@ -912,15 +912,21 @@ func (c Identifiers[V]) AddArgs(names []string, outersUsed *[]string) Identifier
 		ident, ok := c(name)
 		if outersUsed != nil {
 			if ok && !ident.IsConst {
+				// if the identifier is an attribute of the 'this' map,
+				// the map itself is the outer value that has to be captured
+				outer := name
+				if ident.ThisName != "" {
+					outer = ident.ThisName
+				}
 				found := false
 				for _, n := range *outersUsed {
-					if n == name {
+					if n == outer {
 						found = true
 						break
 					}
 				}
 				if !found {
-					*outersUsed = append(*outersUsed, name)
+					*outersUsed = append(*outersUsed, outer)
 				}
 			}
 		}
